@@ -285,6 +285,75 @@ theorem ffillTail_allnan (inv : Option Int) (lim : Option Nat) (idx : List Int) 
     (h : ∀ m, m < xs.length → xs[m]? = some Option.none) : ffillTail inv lim idx xs = xs := by
   unfold ffillTail; rw [lastValidTime_none idx xs h]
 
+/-! ### the tail fill does not depend on which sorted index labels the rows -/
+
+theorem lastValid_cases (xs : Col) :
+    (∀ m, m < xs.length → xs[m]? = some Option.none) ∨
+    ∃ p v, xs[p]? = some (some v) ∧ ∀ m, p < m → m < xs.length → xs[m]? = some Option.none := by
+  induction xs with
+  | nil => left; intro m hm; simp at hm
+  | cons x xs ih =>
+    rcases ih with h | ⟨p, v, hp, h⟩
+    · cases x with
+      | none =>
+        left; intro m hm
+        cases m with
+        | zero => simp
+        | succ m => simpa using h m (by simpa using hm)
+      | some v =>
+        right; refine ⟨0, v, by simp, ?_⟩
+        intro m h1 h2
+        cases m with
+        | zero => omega
+        | succ m => simpa using h m (by simpa using h2)
+    · right; refine ⟨p + 1, v, by simpa using hp, ?_⟩
+      intro m h1 h2
+      cases m with
+      | zero => omega
+      | succ m => simpa using h m (by omega) (by simpa using h2)
+
+theorem ffillTail_length (inv : Option Int) (lim : Option Nat) (idx : List Int) (xs : Col)
+    (hl : idx.length = xs.length) : (ffillTail inv lim idx xs).length = xs.length := by
+  unfold ffillTail
+  cases lastValidTime idx xs <;> simp [ffill_length, hl]
+
+theorem ffillTail_indep (inv : Option Int) (lim : Option Nat) (idx idx' : List Int) (xs : Col)
+    (hs : idx.Pairwise (· < ·)) (hs' : idx'.Pairwise (· < ·))
+    (hl : idx.length = xs.length) (hl' : idx'.length = xs.length) :
+    ffillTail inv lim idx xs = ffillTail inv lim idx' xs := by
+  rcases lastValid_cases xs with h | ⟨p, v, hp, h⟩
+  · rw [ffillTail_allnan _ _ _ _ h, ffillTail_allnan _ _ _ _ h]
+  · apply List.ext_getElem?
+    intro i
+    rcases Nat.lt_or_ge i xs.length with hi | hi
+    · rw [ffillTail_get inv lim idx xs p v hs hl hp h i hi, ffillTail_get inv lim idx' xs p v hs' hl' hp h i hi]
+    · rw [List.getElem?_eq_none (by rw [ffillTail_length _ _ _ _ hl]; exact hi),
+          List.getElem?_eq_none (by rw [ffillTail_length _ _ _ _ hl']; exact hi)]
+
+theorem lastValidTime_isNone_indep (idx idx' : List Int) (xs : Col)
+    (hl : idx.length = xs.length) (hl' : idx'.length = xs.length) :
+    (lastValidTime idx xs).isNone = (lastValidTime idx' xs).isNone := by
+  rcases lastValid_cases xs with h | ⟨p, v, hp, h⟩
+  · rw [lastValidTime_none _ _ h, lastValidTime_none _ _ h]
+  · have hpn := getElem?_some_lt hp
+    rw [lastValidTime_eq idx xs p v hl hp h, lastValidTime_eq idx' xs p v hl' hp h,
+        List.getElem?_eq_getElem (by omega), List.getElem?_eq_getElem (by omega)]
+    rfl
+
+theorem ffillTail_keep (inv : Option Int) (lim : Option Nat) (idx : List Int) (xs : Col)
+    (hs : idx.Pairwise (· < ·)) (hl : idx.length = xs.length) (i : Nat) (w : Int)
+    (hi : xs[i]? = some (some w)) : (ffillTail inv lim idx xs)[i]? = some (some w) := by
+  have hin := getElem?_some_lt hi
+  rcases lastValid_cases xs with h | ⟨p, v, hp, h⟩
+  · rw [h i hin] at hi; cases hi
+  · rw [ffillTail_get inv lim idx xs p v hs hl hp h i hin]
+    have : i ≤ p := by
+      rcases Nat.lt_or_ge p i with h' | h'
+      · rw [h i h' hin] at hi; cases hi
+      · exact h'
+    simp [this]
+    exact ffillAux_keep _ _ _ _ _ _ hi
+
 /-! ### frames: the row view of positional selection -/
 
 namespace Frame
